@@ -48,6 +48,8 @@ pub enum WFault {
     ErrAtCall(usize),
     /// The n-th write call returns Ok(0) once.
     ZeroAtCall(usize),
+    /// The n-th flush call fails once.
+    FlushErrAtCall(usize),
 }
 
 #[derive(Clone, Copy, Debug)]
@@ -64,6 +66,9 @@ pub struct Knobs {
     /// Every poll of a task (and of a handler sub-future) gets a Waker of its own; only the one handed to the
     /// most recent poll schedules the task (the `Future::poll` contract), wake-ups through older ones are lost.
     pub fresh_wakers: bool,
+    /// poll_write_vectored behaves like the trait's default implementation: only the first non-empty slice is
+    /// looked at (a transport without scatter/gather support).
+    pub vectored_first_only: bool,
 }
 
 pub struct World {
@@ -95,6 +100,7 @@ pub struct World {
     pub write_blocked: bool,
     pub wfault: WFault,
     pub write_calls: usize,
+    pub flush_calls: usize,
     pub write_failed_at: Option<usize>,
     pub writes_after_failure: usize,
     pub write_dropped: bool,
@@ -139,7 +145,7 @@ impl World {
             cx, knobs, wire, segs, next_seg: 0, sent: 0, avail: 0, read_pos: 0, peer_closed: false, close_when_done: true,
             read_waker: None, read_blocked: false, rfault: RFault::None, read_calls: 0, reads_after_mark: 0, read_dropped: false, eof_reported: false,
             log: Vec::new(), decoded: Vec::new(), decoded_upto: 0, decoded_at_read: Vec::new(), write_waker: None, write_blocked: false,
-            wfault: WFault::None, write_calls: 0, write_failed_at: None, writes_after_failure: 0, write_dropped: false, lock_held_pending: false,
+            wfault: WFault::None, write_calls: 0, flush_calls: 0, write_failed_at: None, writes_after_failure: 0, write_dropped: false, lock_held_pending: false,
             end_requests: 0, replies_seen: 0, handler_log: Vec::new(), shutdown_requested_at_step: None, step: 0,
             current_poll_started_after_shutdown: false,
             owed_triggers: Vec::new(), rec_bounds: Vec::new(), suspend_violation: None, empty_buf_reads: 0, force_propagate: false, read_everything: false, idle_at_shutdown: false, read_err_kind: io::ErrorKind::ConnectionReset, read_error_fired: false, reads_after_read_error: 0, retry_failed_writes: false,
@@ -344,11 +350,26 @@ impl AsyncWrite for SimWrite {
         self.do_write(cx, &[buf], false)
     }
     fn poll_write_vectored(self: Pin<&mut Self>, cx: &mut Context<'_>, bufs: &[IoSlice<'_>]) -> Poll<io::Result<usize>> {
+        let first_only = lock(&self.0).knobs.vectored_first_only;
+        if first_only {
+            // what AsyncWrite's default poll_write_vectored does
+            let b: &[u8] = bufs.iter().find(|b| !b.is_empty()).map_or(&[][..], |b| &**b);
+            lock(&self.0).cx.probe("vectored_write_first_slice_only");
+            return self.do_write(cx, &[b], false);
+        }
         let v: Vec<&[u8]> = bufs.iter().map(|b| &**b).collect();
         self.do_write(cx, &v, true)
     }
     fn poll_flush(self: Pin<&mut Self>, cx: &mut Context<'_>) -> Poll<io::Result<()>> {
         let mut w = lock(&self.0);
+        let call = w.flush_calls;
+        w.flush_calls += 1;
+        if w.wfault == WFault::FlushErrAtCall(call) {
+            w.cx.fault("flush_error");
+            w.cx.ev("flush_err", call as u64, 0);
+            w.write_failed_at = Some(w.log.len());
+            return Poll::Ready(Err(io::Error::new(io::ErrorKind::BrokenPipe, "injected flush error")));
+        }
         if w.write_blocked {
             w.write_waker = Some(cx.waker().clone());
             return Poll::Pending;
@@ -628,6 +649,9 @@ pub struct Join<'a, T> {
     results: Vec<Option<T>>,
     world: Shared,
     spurious_done: bool,
+    /// try_join-like behaviour: when a child finishes with a result for which this returns true, the remaining
+    /// children are dropped where they stand (their results are missing from the output).
+    pub fail_fast: Option<fn(&T) -> bool>,
 }
 
 impl<'a, T> Join<'a, T> {
@@ -638,6 +662,7 @@ impl<'a, T> Join<'a, T> {
             results: (0..n).map(|_| None).collect(),
             world,
             spurious_done: false,
+            fail_fast: None,
         }
     }
 }
@@ -685,12 +710,19 @@ impl<T: Unpin> Future for Join<'_, T> {
             let waker = Waker::from(sw.clone());
             let mut scx = Context::from_waker(&waker);
             if let Poll::Ready(v) = f.as_mut().expect("live").as_mut().poll(&mut scx) {
+                let stop = this.fail_fast.map_or(false, |p| p(&v));
                 this.results[i] = Some(v);
                 *f = None;
+                if stop {
+                    let dropped = this.children.iter().filter(|(f, _)| f.is_some()).count();
+                    if dropped > 0 { lock(&this.world).cx.probe("sibling_subtasks_dropped_on_error"); }
+                    for (f, _) in this.children.iter_mut() { *f = None; }
+                    break;
+                }
             }
         }
         if this.children.iter().all(|(f, _)| f.is_none()) {
-            Poll::Ready(this.results.iter_mut().map(|r| r.take().expect("result")).collect())
+            Poll::Ready(this.results.iter_mut().filter_map(Option::take).collect())
         } else {
             Poll::Pending
         }
